@@ -25,6 +25,10 @@ enum Re {
     Alts(Vec<(i32, Re)>),
     /// Unicode property class `\\p{NAME}` (L, Lu, Ll, Nd, P)
     Prop(&'static str),
+    /// inline flag directive `(?i)` (true) / `(?-i)` (false): in effect up to the end of the enclosing group
+    Flag(bool),
+    /// an explicit group: 0 `( )`, 1 `(?P<name> )`, 2 `(?: )`, 3 `(?i: )`, 4 `(?-i: )`; flags set inside end with it
+    Group(u8, Box<Re>),
 }
 
 fn esc(c: u32) -> String {
@@ -45,7 +49,8 @@ impl Re {
             Re::Star(a) | Re::Plus(a) | Re::Opt(a) => a.can_start(c),
             Re::Rep(_, n, a) => *n > 0 && a.can_start(c),
             Re::Alts(v) => v.iter().any(|(_, r)| r.can_start(c)),
-            Re::Prop(_) => false,
+            Re::Prop(_) | Re::Flag(_) => false,
+            Re::Group(_, a) => a.can_start(c),
         }
     }
     fn nullable(&self) -> bool {
@@ -59,11 +64,50 @@ impl Re {
             Re::Rep(m, _, a) => *m == 0 || a.nullable(),
             Re::Alts(v) => v.iter().any(|(_, r)| r.nullable()),
             Re::Prop(_) => false,
+            Re::Flag(_) => true,
+            Re::Group(_, a) => a.nullable(),
         }
     }
+    /// the same language without inline flags and explicit groups: the flag is resolved with the scoping the
+    /// regex syntax documents (a directive holds up to the end of the enclosing group, of ANY kind; it carries from one
+    /// alternation branch into the next), case-insensitive leaves become classes with both cases
+    fn resolve(&self, ci: &mut bool) -> Re {
+        fn other_case(c: u32) -> Option<u32> {
+            match c { 0x61..=0x7a => Some(c - 0x20), 0x41..=0x5a => Some(c + 0x20), 0xe9 => Some(0xc9), 0xc9 => Some(0xe9), 0x3bb => Some(0x39b), 0x39b => Some(0x3bb), _ => None }
+        }
+        match self {
+            Re::Lit(v) => {
+                if !*ci || v.iter().all(|c| other_case(*c).is_none()) { return self.clone(); }
+                let mut parts: Vec<Re> = v.iter().map(|c| match other_case(*c) { Some(o) => Re::Cls(false, vec![(*c, *c), (o, o)]), None => Re::Lit(vec![*c]) }).collect();
+                let mut acc = parts.pop().unwrap();
+                while let Some(p) = parts.pop() { acc = Re::Seq(Box::new(p), Box::new(acc)); }
+                acc
+            }
+            Re::Cls(neg, rs) => {
+                if !*ci { return self.clone(); }
+                let mut out = rs.clone();
+                for (lo, hi) in rs { if hi - lo < 64 { for c in *lo..=*hi { if let Some(o) = other_case(c) { out.push((o, o)); } } } }
+                Re::Cls(*neg, out)
+            }
+            Re::Seq(a, b) => { let ra = a.resolve(ci); let rb = b.resolve(ci); Re::Seq(Box::new(ra), Box::new(rb)) }
+            Re::Alt(a, b) => { let ra = a.resolve(ci); let rb = b.resolve(ci); Re::Alt(Box::new(ra), Box::new(rb)) }
+            Re::Star(a) => Re::Star(Box::new(a.resolve(&mut ci.clone()))),
+            Re::Plus(a) => Re::Plus(Box::new(a.resolve(&mut ci.clone()))),
+            Re::Opt(a) => Re::Opt(Box::new(a.resolve(&mut ci.clone()))),
+            Re::Rep(m, n, a) => Re::Rep(*m, *n, Box::new(a.resolve(&mut ci.clone()))),
+            Re::Alts(v) => Re::Alts(v.iter().map(|(p, r)| (*p, r.resolve(&mut ci.clone()))).collect()),
+            Re::Prop(_) => self.clone(),
+            Re::Flag(b) => { *ci = *b; Re::Lit(vec![]) }
+            Re::Group(k, a) => {
+                let mut inner = match k { 3 => true, 4 => false, _ => *ci };
+                a.resolve(&mut inner)
+            }
+        }
+    }
+    fn has_flags(&self) -> bool { let s = self.ser(); s.contains('F') || s.contains('G') }
     fn atom(&self) -> String {
         match self {
-            Re::Cls(..) | Re::Prop(_) => self.pattern(),
+            Re::Cls(..) | Re::Prop(_) | Re::Group(..) => self.pattern(),
             Re::Lit(v) if v.len() == 1 => self.pattern(),
             _ => format!("({})", self.pattern()),
         }
@@ -88,6 +132,17 @@ impl Re {
             Re::Rep(m, n, a) => format!("{}{{{m},{n}}}", a.atom()),
             Re::Alts(v) => v.iter().map(|(_, r)| r.pattern()).collect::<Vec<_>>().join("|"),
             Re::Prop(n) => format!("\\p{{{n}}}"),
+            Re::Flag(b) => if *b { "(?i)".into() } else { "(?-i)".into() },
+            Re::Group(k, a) => {
+                static NAMES: std::sync::atomic::AtomicUsize = std::sync::atomic::AtomicUsize::new(0);
+                match k {
+                    1 => format!("(?P<g{}>{})", NAMES.fetch_add(1, std::sync::atomic::Ordering::Relaxed), a.pattern()),
+                    2 => format!("(?:{})", a.pattern()),
+                    3 => format!("(?i:{})", a.pattern()),
+                    4 => format!("(?-i:{})", a.pattern()),
+                    _ => format!("({})", a.pattern()),
+                }
+            }
         }
     }
     fn seq_part(&self) -> String {
@@ -105,6 +160,8 @@ impl Re {
             Re::Rep(m, n, a) => format!("R{m}.{n}({})", a.ser()),
             Re::Alts(v) => format!("Z({})", v.iter().map(|(p, r)| format!("{p}~{}", r.ser())).collect::<Vec<_>>().join("/")),
             Re::Prop(n) => format!("U{n}."),
+            Re::Flag(b) => format!("F{}", *b as u8),
+            Re::Group(k, a) => format!("G{k}({})", a.ser()),
         }
     }
 }
@@ -152,6 +209,14 @@ fn parse_re(s: &[u8], i: &mut usize) -> Re {
             let a = parse_re(s, i);
             *i += 1;
             match c { b'K' => Re::Star(Box::new(a)), b'P' => Re::Plus(Box::new(a)), _ => Re::Opt(Box::new(a)) }
+        }
+        b'F' => { let b = s[*i] == b'1'; *i += 1; Re::Flag(b) }
+        b'G' => {
+            let k = s[*i] - b'0';
+            *i += 2;
+            let a = parse_re(s, i);
+            *i += 1;
+            Re::Group(k, Box::new(a))
         }
         b'U' => {
             let st = *i;
@@ -326,6 +391,36 @@ fn rand_re_with_reps(rng: &mut Rng, focus: &[u32]) -> Re {
     }
 }
 
+/// a pattern with INLINE FLAG DIRECTIVES `(?i)` / `(?-i)` at top level and inside capturing, named, non-capturing and
+/// flag groups, with pattern text after the groups: a chain of letters, small letter classes, directives and groups
+fn rand_flagged(rng: &mut Rng, depth: usize) -> Re {
+    let mut items: Vec<Re> = Vec::new();
+    let n = rng.range(2, 4);
+    for _ in 0..n {
+        items.push(match rng.below(8) {
+            0 | 1 => Re::Flag(rng.chance(2, 3)),
+            2 | 3 if depth < 2 => {
+                let mut inner = rand_flagged(rng, depth + 1);
+                // often a bare directive directly inside the group, before or after its first element
+                if rng.chance(1, 2) {
+                    let f = Re::Flag(rng.chance(2, 3));
+                    inner = if rng.chance(1, 2) { Re::Seq(Box::new(f), Box::new(inner)) }
+                            else if let Re::Seq(a, b) = inner { Re::Seq(a, Box::new(Re::Seq(Box::new(f), b))) } else { Re::Seq(Box::new(f), Box::new(inner)) };
+                }
+                let g = Re::Group(*rng.pick(&[0u8, 0, 1, 1, 2, 3, 4]), Box::new(inner));
+                if rng.chance(1, 5) { Re::Opt(Box::new(g)) } else { g }
+            }
+            4 => Re::Cls(false, vec![(0x61, 0x61 + rng.below(3) as u32)]),
+            _ => Re::Lit((0..rng.range(1, 2)).map(|_| *rng.pick(&[0x61u32, 0x62, 0x63, 0x64, 0xe9])).collect()),
+        });
+    }
+    // text after everything, so that a directive that leaks out of a group is observable
+    items.push(Re::Lit(vec![*rng.pick(&[0x61u32, 0x62, 0x63, 0x64])]));
+    let mut acc = items.pop().unwrap();
+    while let Some(p) = items.pop() { acc = Re::Seq(Box::new(p), Box::new(acc)); }
+    acc
+}
+
 fn rand_set(rng: &mut Rng) -> TokSet {
     let n = rng.range(3, 7);
     let with_word = rng.chance(1, 3);
@@ -446,6 +541,16 @@ fn rand_set(rng: &mut Rng) -> TokSet {
             if toks.iter().any(|t| t.re.ser() == re.ser()) { continue; }
             let at = rng.below(toks.len() + 1);
             toks.insert(at, Tok { prec: *rng.pick(&[0, 0, 1]), is_string: false, re, immediate: false, ci: false });
+        }
+    }
+    // inline flag directives and explicit groups
+    if rng.chance(1, 2) {
+        for _ in 0..rng.range(1, 3) {
+            let re = rand_flagged(rng, 0);
+            if re.nullable() || !re.has_flags() || toks.iter().any(|t| t.re.ser() == re.ser()) { continue; }
+            let at = rng.below(toks.len() + 1);
+            let p0 = toks[0].prec;
+            toks.insert(at, Tok { prec: p0, is_string: false, re, immediate: false, ci: rng.chance(1, 6) });
         }
     }
     // immediate tokens (`token.immediate`): recognised only when no extras precede them
@@ -693,6 +798,8 @@ fn sample_re(re: &Re, rng: &mut Rng, out: &mut Vec<u32>) {
         Re::Opt(a) => if rng.chance(1, 2) { sample_re(a, rng, out) },
         Re::Rep(m, n, a) => for _ in 0..rng.range(*m, *n) { sample_re(a, rng, out) },
         Re::Alts(v) => { let k = rng.below(v.len()); sample_re(&v[k].1, rng, out) }
+        Re::Flag(_) => {}
+        Re::Group(_, a) => sample_re(a, rng, out),
         Re::Prop(n) => out.push(match *n { "L" => *rng.pick(&[0x61, 0x42, 0xe9, 0x39b]), "Lu" => *rng.pick(&[0x41, 0x42, 0xc9, 0x39b]), "Ll" => *rng.pick(&[0x61, 0x62, 0xe9, 0x3bb]), "Nd" => *rng.pick(&[0x30, 0x31]), _ => *rng.pick(&[0x28, 0x29, 0x2d, 0x3b, 0x2c]) }),
     }
 }
@@ -701,7 +808,9 @@ fn rand_mode_set(rng: &mut Rng) -> ModeSet {
     let base = loop { let b = rand_set(rng); if b.word.is_none() { break b; } };
     let mut toks: Vec<Tok> = base.toks.into_iter().filter(|t| match &t.re { Re::Lit(v) => !(v.len() == 1 && (v[0] == 0x28 || v[0] == 0x29)), Re::Alts(_) => false, _ => true })
         // tokens that begin with an extras character belong to the token-soup family (separator-aware model)
-        .filter(|t| ![0x20u32, 0x0a, 0x09].iter().any(|c| t.re.can_start(*c))).collect();
+        .filter(|t| ![0x20u32, 0x0a, 0x09].iter().any(|c| t.re.can_start(*c)))
+        // inline flag directives / explicit groups likewise (only `run_set` hands the model the resolved pattern)
+        .filter(|t| !t.re.has_flags()).collect();
     if toks.len() < 2 { toks.push(Tok { prec: 0, is_string: true, re: Re::Lit(vec![0x61]), immediate: false, ci: false }); toks.push(Tok { prec: 0, is_string: true, re: Re::Lit(vec![0x62]), immediate: false, ci: false }); }
     if toks.len() > 10 { toks.truncate(10); }
     for t in toks.iter_mut() { t.immediate = false; }
@@ -990,7 +1099,8 @@ fn rand_large_class_set(rng: &mut Rng) -> (TokSet, Vec<u32>) {
             Re::Star(a) | Re::Plus(a) | Re::Opt(a) | Re::Rep(_, _, a) => bounds(a, out),
             Re::Lit(_) => {}
             Re::Alts(v) => for (_, r) in v { bounds(r, out); },
-            Re::Prop(_) => {}
+            Re::Prop(_) | Re::Flag(_) => {}
+            Re::Group(_, a) => bounds(a, out),
         }
     }
     for t in &toks { bounds(&t.re, &mut alpha); }
@@ -1008,6 +1118,12 @@ fn run_set(out: &mut impl Write, id: &str, ts: &TokSet, strings: &mut dyn FnMut(
     parser.set_language(&b.language).map_err(|e| e.to_string())?;
     let (kws, ambig) = keyword_sets(&b.parser_c, ts);
     writeln!(out, "set {id} {}", ts.ser()).unwrap();
+    if ts.toks.iter().any(|t| t.re.has_flags()) {
+        // the model gets the pattern with the flag directives RESOLVED (scoped to the enclosing group) and without groups
+        let mut m = ts.clone();
+        for t in m.toks.iter_mut() { if t.re.has_flags() { let mut ci = t.ci; t.re = t.re.resolve(&mut ci); t.ci = false; } }
+        writeln!(out, "setm {id} {}", m.ser()).unwrap();
+    }
     writeln!(out, "kw {}", if kws.is_empty() { "-".to_string() } else { kws.iter().map(|k| k.to_string()).collect::<Vec<_>>().join(",") }).unwrap();
     writeln!(out, "ambig {}", if ambig.is_empty() { "-".to_string() } else { ambig.iter().map(|k| k.to_string()).collect::<Vec<_>>().join(",") }).unwrap();
     // how many lex states of the emitted lexer use the ADVANCE_MAP table (render.rs emits it for a state with ≥ 8
@@ -1030,7 +1146,8 @@ fn run_set(out: &mut impl Write, id: &str, ts: &TokSet, strings: &mut dyn FnMut(
             Re::Seq(a, b) | Re::Alt(a, b) => { chars_of(a, out); chars_of(b, out); }
             Re::Star(a) | Re::Plus(a) | Re::Opt(a) | Re::Rep(_, _, a) => chars_of(a, out),
             Re::Alts(v) => for (_, r) in v { chars_of(r, out); },
-            Re::Prop(_) => {}
+            Re::Prop(_) | Re::Flag(_) => {}
+            Re::Group(_, a) => chars_of(a, out),
         }
     }
     for t in &ts.toks { chars_of(&t.re, &mut base); }
@@ -1124,12 +1241,24 @@ fn main() {
                     f(&v);
                 }
             }
-            if ts.toks.iter().any(|t| t.ci || t.re.ser().contains('U')) {
+            if ts.toks.iter().any(|t| t.ci || t.re.ser().contains('U') || t.re.has_flags()) {
                 // case-insensitive tokens: upper-case letters (and mixed case) in the enumerated alphabet
                 let upper: Vec<u32> = vec![0x41, 0x42, 0x61, 0x62, 0xc9, 0xe9, 0x39b, 0x30, 0x20];
                 let mut s2: Vec<u32> = Vec::new();
                 rec(&mut s2, full_len.min(4), &upper, f);
                 for _ in 0..n_long { let len = srng.range(4, 20); let v: Vec<u32> = (0..len).map(|_| { let c = *srng.pick(&syms); if srng.chance(1, 2) { match c { 0x61..=0x64 => c - 0x20, 0xe9 => 0xc9, 0x3bb => 0x39b, _ => c } } else { c } }).collect(); f(&v); }
+            }
+            // matches of the tokens with inline flags, every letter in a random case, alone and between other text
+            for t in ts.toks.iter().filter(|t| t.re.has_flags()) {
+                for _ in 0..60 {
+                    let mut v: Vec<u32> = Vec::new();
+                    sample_re(&t.re, &mut srng, &mut v);
+                    for c in v.iter_mut() { if srng.chance(1, 2) { *c = match *c { 0x61..=0x64 => *c - 0x20, 0xe9 => 0xc9, 0x3bb => 0x39b, o => o }; } }
+                    f(&v);
+                    let mut w = vec![*srng.pick(&ALPHA), 0x20];
+                    w.extend(&v); w.push(0x20); w.push(*srng.pick(&ALPHA));
+                    f(&w);
+                }
             }
             // random strings of the next length, and longer ones with spaces
             for _ in 0..n_len_next { let v: Vec<u32> = (0..full_len + 1).map(|_| *srng.pick(&enum_syms)).collect(); f(&v); }
